@@ -82,6 +82,23 @@ var variants = []variant{
 	{"conn-option+value", func(h string) [][2]string {
 		return [][2]string{{"Connection", strings.ToLower(h)}, {h, "forged-hop"}}
 	}, false},
+	// the value travels in the trailer section of an upload (announced with a Trailer field); a line whose name starts
+	// with "@" is a trailer field
+	{"trailer", func(h string) [][2]string {
+		return [][2]string{{"Trailer", strings.ToLower(h)}, {"@" + strings.ToLower(h), "forged-trailer"}}
+	}, true},
+}
+
+// splitLines separates the header lines of a case from its trailer fields ("@name").
+func splitLines(lines [][2]string) (hdr, tr [][2]string) {
+	for _, l := range lines {
+		if strings.HasPrefix(l[0], "@") {
+			tr = append(tr, [2]string{l[0][1:], l[1]})
+		} else {
+			hdr = append(hdr, l)
+		}
+	}
+	return
 }
 
 type reqCase struct {
@@ -113,9 +130,20 @@ func fillerLines() [][2]string {
 	return l
 }
 
+// lateInjectors: see runCases.
+var lateInjectors bool
+
 func runCases(t *testing.T, rep *ev.Report, set string, inj []reverseproxy.HeaderInjector, cases []reqCase, expectDefault bool) {
 	res := bubble.Run(t, func() {
-		st := bubble.NewStack(bubble.StackOpts{Injectors: inj})
+		var st *bubble.Stack
+		if lateInjectors {
+			// the handler is built first and given its injectors through the exported field afterwards (as the binary
+			// does with PreserveHost and IsProbeRequest), before the first request
+			st = bubble.NewStack(bubble.StackOpts{})
+			st.RP.HeaderInjectors = inj
+		} else {
+			st = bubble.NewStack(bubble.StackOpts{Injectors: inj})
+		}
 		defer st.Shutdown()
 		extra := 0
 		if prefill {
@@ -201,25 +229,55 @@ func runCases(t *testing.T, rep *ev.Report, set string, inj []reverseproxy.Heade
 				}
 			}
 			before := st.Backend.Count()
+			var refBefore *h2fpref.State
 			path := rc.path + fmt.Sprintf("-n%d", i)
 			var cl *bubble.Client
 			if rc.proto == "h1" {
 				cl = c1
+				hdr, tr := splitLines(rc.lines)
 				var sb strings.Builder
-				fmt.Fprintf(&sb, "GET /%s HTTP/1.1\r\nHost: localhost\r\n", path)
-				for _, l := range rc.lines {
+				method := "GET"
+				if len(tr) > 0 {
+					method = "POST"
+				}
+				fmt.Fprintf(&sb, "%s /%s HTTP/1.1\r\nHost: localhost\r\n", method, path)
+				for _, l := range hdr {
 					fmt.Fprintf(&sb, "%s: %s\r\n", l[0], l[1])
+				}
+				if len(tr) > 0 {
+					sb.WriteString("Transfer-Encoding: chunked\r\n\r\n4\r\nbody\r\n0\r\n")
+					for _, l := range tr {
+						fmt.Fprintf(&sb, "%s: %s\r\n", l[0], l[1])
+					}
 				}
 				sb.WriteString("\r\n")
 				cl.Write([]byte(sb.String()))
 			} else {
 				cl = c2
-				fs := []h2wire.HF{{":method", "GET"}, {":scheme", "https"}, {":authority", "localhost"}, {":path", "/" + path}}
-				for _, l := range rc.lines {
+				hdr, tr := splitLines(rc.lines)
+				method := "GET"
+				if len(tr) > 0 {
+					method = "POST"
+				}
+				fs := []h2wire.HF{{":method", method}, {":scheme", "https"}, {":authority", "localhost"}, {":path", "/" + path}}
+				for _, l := range hdr {
 					fs = append(fs, h2wire.HF{Name: strings.ToLower(l[0]), Value: l[1]})
 				}
-				cl.Write(h2wire.Headers(stream, cl.Enc.Block(fs...), true, true, nil, -1))
+				cl.Write(h2wire.Headers(stream, cl.Enc.Block(fs...), len(tr) == 0, true, nil, -1))
 				ref.OnHeaders([]string{":method", ":scheme", ":authority", ":path"}, nil)
+				if len(tr) > 0 {
+					cl.Write(h2wire.Data(stream, []byte("body"), false, -1))
+					var tf []h2wire.HF
+					var tn []string
+					for _, l := range tr {
+						tf = append(tf, h2wire.HF{Name: l[0], Value: l[1]})
+						tn = append(tn, l[0])
+					}
+					cl.Write(h2wire.Headers(stream, cl.Enc.Block(tf...), true, true, nil, -1))
+					// the request's handler may compute its fingerprint before or after the trailer HEADERS frame is read
+					refBefore = ref.Clone()
+					ref.OnHeaders(tn, nil)
+				}
 			}
 			synctest.Wait()
 			rep.Add("evaluations", 1)
@@ -273,13 +331,28 @@ func runCases(t *testing.T, rep *ev.Report, set string, inj []reverseproxy.Heade
 					expect[k] = v
 				}
 			}
+			for name := range expect {
+				// the trailer section of the forwarded request: nothing the client put under a configured name
+				for k, tv := range got.Trailer {
+					if !strings.EqualFold(k, name) {
+						continue
+					}
+					for _, v := range tv {
+						if v != "" {
+							rep.Violate(map[string]any{"kind": "client-value-reaches-backend", "proto": rc.proto, "where": "trailer", "set": set, "header": name},
+								map[string]any{"set": set, "proto": rc.proto, "path": path, "client_lines": rc.lines, "backend_trailer": got.Trailer},
+								"set %s, %s request %s: the backend received %q under %s in the trailer section of the request (client lines %v)", set, rc.proto, rc.desc, v, name, rc.lines)
+						}
+					}
+				}
+			}
 			for name, want := range expect {
 				vals := got.Values(name)
 				okv := false
 				if want == nil {
 					okv = len(vals) == 0
 				} else if name == "X-HTTP2-Fingerprint" && expectDefault {
-					okv = len(vals) == 1 && ref.Equal(vals[0], -1)
+					okv = len(vals) == 1 && (ref.Equal(vals[0], -1) || (refBefore != nil && refBefore.Equal(vals[0], -1)))
 				} else {
 					okv = len(vals) == 1 && vals[0] == *want
 				}
@@ -439,18 +512,22 @@ func TestCheck(t *testing.T) {
 	_ = append(fingerproxy.DefaultHeaderInjectors(), stub{"X-Other-Tenant-FP", 0})
 	split("default+custom", setC, casesC, true)
 	rep.Info["cases_total"] = len(casesA) + len(casesB) + len(casesC)
-	for pass := 0; pass < 2; pass++ {
+	for pass := 0; pass < 3; pass++ {
 		prefill = pass == 1
+		lateInjectors = pass == 2
 		for i, b := range batches {
 			if i%of != shard {
 				continue
 			}
-			if prefill && !ev.Thorough() && i%3 != 0 {
-				continue // quick: a third of the matrix again on pre-filled connections
+			if pass > 0 && !ev.Thorough() && i%3 != pass-1 {
+				continue // quick: a third of the matrix again on pre-filled connections, another third with late injectors
 			}
 			name := b.set
 			if prefill {
 				name += "+prefilled-conn"
+			}
+			if lateInjectors {
+				name += "+injectors-assigned-after-construction"
 			}
 			runCases(t, rep, name, b.inj, b.cases, b.defaults)
 			if rep.NumViolations() > 40 {
